@@ -40,7 +40,7 @@ class Calc(object):
 
     @staticmethod
     def t_CONST10(t):
-        r"""\d+"""
+        r"""[0-9]+"""
         if len(t.value) > 100:
             raise ParseError('integer literal of %d characters is too long' % len(t.value))
         t.value = int(t.value)
